@@ -73,7 +73,7 @@ class Native:
                     '-I', os.path.join(build.REPO, 'include', 'pomerol'), '-I', '/usr/include/eigen3',
                     '-I', '/usr/lib/x86_64-linux-gnu/openmpi/include', '-I', '/usr/lib/x86_64-linux-gnu/openmpi/include/openmpi',
                     '-I', os.path.join(VERIF, 'include'), '-I', os.path.join(VERIF, 'harness')]
-        self.libs = ['-lboost_mpi', '-lboost_serialization', '-L/usr/lib/x86_64-linux-gnu/openmpi/lib', '-lmpi_cxx', '-lmpi']
+        self.libs = ['-Wl,--wrap=exp', '-lboost_mpi', '-lboost_serialization', '-L/usr/lib/x86_64-linux-gnu/openmpi/lib', '-lmpi_cxx', '-lmpi']
         self.error = None
 
     def ensure_lib(self):
@@ -247,7 +247,8 @@ def run_property(prop_id, spec, tier, seed=0, only_unit=None, keep=False, verbos
         for u in units:
             opts = dict(query_timeout_ms=u.get('query_timeout_ms', 20000 if tier == 'quick' else 300000),
                         max_steps=u.get('max_steps', 5_000_000), max_loop=u.get('max_loop', 2000),
-                        max_paths=u.get('max_paths', 200000), overrides=u.get('overrides', {}))
+                        max_paths=u.get('max_paths', 200000), overrides=u.get('overrides', {}),
+                        resolve_selects=u.get('resolve_selects', False))
             for fx in expand_split(u.get('split')):
                 jobs.append((unit_paths[u['name']], fx, opts, u['name']))
         rnd = random.Random(seed)
@@ -472,7 +473,7 @@ def validate_unit(native, unit_path, u, vec):
     mod = irfront.load_module(unit_path)
     E = irs.Engine(mod, dict(fixed=dict(vec), concrete_defaults=True, query_timeout_ms=20000,
                            max_loop=u.get('max_loop', 2000), max_steps=u.get('max_steps', 5_000_000),
-                           overrides=u.get('overrides', {})))
+                           overrides=u.get('overrides', {}), resolve_selects=u.get('resolve_selects', False)))
     res = E.run('h_main')
     if res.errors or res.violations or res.issues:
         return False, 'E2 concrete run: errors=%s violations=%s issues=%s' % (res.errors[:2], [v['label'] for v in res.violations[:2]], [i['msg'] for i in res.issues[:2]])
